@@ -182,6 +182,8 @@ def _data_columns_as_dict(data, columns = None):
             elif is_dicts(data):
                 return dict_concat(data)
             elif min([isinstance(i, list) for i in data]):
+                if len(data) == 1: ## a header and no rows: zipper(header, []) raises on two headers and drops a single one
+                    return {key : [] for key in data[0]}
                 return dict(zipper(data[0], zipper(*data[1:])))
             else:
                 return dict(data = data)
